@@ -321,6 +321,46 @@ func init() {
 			})
 		}
 
+		// --- jiterator.go advanceChunk (fix 008ef8e): the end-of-data position of the last chunk is the chunk iterator's own
+		fj := parseFile("pkg/partition/jiterator.go")
+		keepsItPos := false
+		if fd := funcDecl(fj, "JIterator", "advanceChunk"); fd != nil {
+			readsCiPos, restores := false, false
+			ast.Inspect(fd.Body, func(n ast.Node) bool {
+				switch x := n.(type) {
+				case *ast.CallExpr:
+					if se, ok := x.Fun.(*ast.SelectorExpr); ok && se.Sel.Name == "Pos" {
+						if s2, ok := se.X.(*ast.SelectorExpr); ok && s2.Sel.Name == "ci" {
+							readsCiPos = true
+						}
+					}
+				case *ast.IfStmt:
+					// if err == io.EOF && … { jit.pos = … }
+					isEOF := false
+					ast.Inspect(x.Cond, func(m ast.Node) bool {
+						if se, ok := m.(*ast.SelectorExpr); ok && se.Sel.Name == "EOF" {
+							isEOF = true
+						}
+						return true
+					})
+					if isEOF {
+						ast.Inspect(x.Body, func(m ast.Node) bool {
+							if as, ok := m.(*ast.AssignStmt); ok && len(as.Lhs) == 1 {
+								if se, ok := as.Lhs[0].(*ast.SelectorExpr); ok && se.Sel.Name == "pos" {
+									restores = true
+								}
+							}
+							return true
+						})
+					}
+				}
+				return true
+			})
+			keepsItPos = readsCiPos && restores
+		} else {
+			problem("JIterator.advanceChunk not found")
+		}
+
 		// --- fiterator.go fitInRange
 		ff := parseFile("pkg/cursor/fiterator.go")
 		loOp, hiOp := "", ""
@@ -484,6 +524,8 @@ func init() {
 		l.p("def lowerAskMinusOne : Bool := %s", leanBool(lowerAskMinusOne))
 		l.p("/-- `updatePoss` leaves the whole chunk open when the confirmed count is above the number of records the index has been told about (`KnownRecords` = `Recs`; repair of F46) -/")
 		l.p("def updatePossOpensUnknownTail : Bool := %s", leanBool(opensUnknownTail))
+		l.p("/-- `advanceChunk`: when no chunk follows the one just left, the end-of-data position is where the chunk iterator stopped (fix 008ef8e) -/")
+		l.p("def advanceChunkKeepsIteratorPos : Bool := %s", leanBool(keepsItPos))
 		l.p("/-- `fitInRange` compares with `>=` at the lower and `<=` at the upper bound -/")
 		l.p("def fitLowerInclusive : Bool := %s", leanBool(loOp == ">="))
 		l.p("def fitUpperInclusive : Bool := %s", leanBool(hiOp == "<="))
